@@ -76,6 +76,12 @@ func (e *Env) Current(c string) {
 
 func (e *Env) WriteReport(r *Report) {
 	r.Tier, r.Seed = e.Tier, e.Seed
+	sharedFindings.Lock()
+	for _, v := range sharedFindings.list {
+		r.Violate(r.Property+"-"+v.Key, v.Case, v.Detail)
+	}
+	sharedFindings.list = nil
+	sharedFindings.Unlock()
 	if r.Violations == nil {
 		r.Violations = []Violation{}
 	}
